@@ -86,7 +86,7 @@ def rand_tx(rng, tier):
     outs = [(rng.choice([0, 1, 546, 10 ** 8, 21 * 10 ** 14, rng.getrandbits(50)]), rand_script(rng)) for _ in range(nout)]
     if segwit and not any(i[4] for i in ins):
         ins[0] = ins[0][:4] + ([b'\x01'],)
-    return rng.choice([1, 2, 0x7fffffff, 0x20000000]), ins, outs, rng.choice([0, 1, 499999999, 500000000, 0xffffffff]), segwit
+    return rng.choice([1, 2, 0x7fffffff, 0x20000000, 0, 0xffffffff, 3]), ins, outs, rng.choice([0, 1, 499999999, 500000000, 0xffffffff]), segwit
 
 
 def run(tier, seed, opens):
